@@ -231,6 +231,15 @@ def dominating_atoms(f, pos, assume=()):
             for (n_, t_) in alive[0]:
                 if (n_, t_) not in out:
                     out.append((n_, t_))
+    # what every edge into a dominating join has just established holds behind the join as well
+    # (`if(!b.isEmpty()) { ...; if(!b.isEmpty()) continue; } <here b is empty>`)
+    for J, alts in _join_alternatives(f, pos):
+        if len(alts) < 2 or any(al.edge_n == 0 for al in alts):
+            continue
+        first = [(n_, t_, _canon(f, n_, t_)) for (n_, t_) in alts[0][:alts[0].edge_n]]
+        for n_, t_, cn_ in first:
+            if all(any(_canon(f, m_, u_) == cn_ for (m_, u_) in al[:al.edge_n]) for al in alts[1:]) and (n_, t_) not in out:
+                out.append((n_, t_))
     _expand_named_tests(f, out, pos)
     # named tests may decide a join the plain atoms could not
     known2 = [_canon(f, a[0], a[1]) for a in out if a[0] != "case"]
@@ -262,9 +271,16 @@ def _join_alternatives(f, pos):
             if c_ is not None and len(pb["succ"]) == 2 and pb.get("tk") != "SwitchStmt" and pb["succ"][0] != pb["succ"][1]:
                 edge = list(q.cond_atoms(f, c_, pb["succ"][0] == J))
             own = [(a[0], a[1]) for a in _dominating_atoms_basic(f, (p_, len(pb["el"]))) if a[0] != "case" and (a[0], a[1]) not in at_J]
-            alts.append(edge + own)
+            al_ = _Alt(edge + own)
+            al_.edge_n = len(edge)
+            alts.append(al_)
         res.append((J, alts))
     return res
+
+
+class _Alt(list):
+    """atoms of one incoming edge of a join; the first `edge_n` are those of the edge's own condition"""
+    edge_n = 0
 
 
 def _stable_init(f, local_id, pos):
